@@ -625,3 +625,28 @@ def place_family(tier='quick'):
                         continue
                     progs.append('try { ' + w.replace('@', body) + ' } catch (e) { print("top", e.name) }')
     return list(dict.fromkeys(progs))
+
+
+# ------------------------------------------------------------------------------------------------
+# completion (C01): completion values of statement lists at script level and in eval
+# ------------------------------------------------------------------------------------------------
+COMPLETION_STMTS = ['1;', 'var q = f();', 'f();', 'if (t) 2;', 'if (!t) 3;', '{}', ';', 'var v;', 'let l@ = f();', 'for (var i = 0; i < 2; i++) 4;', 'for (var j = 0; j < 1; j++) { f(); }',
+                    'try { 5 } finally { f() }', 'try { throw 6 } catch (e) { f(); }', 'do { 7; break; } while (0);', 'L@: { 8; break L@; }', 'function g@() {}', 'switch (1) { case 1: 9 }',
+                    'with ({}) 10;', 'eval("11; var ev = f();");', 'o.m();', 'new C();', 'x = f();', 'f(), 12;', 'while (false) 13;', 'class K@ {}', 'o.p = f();', 'void f();', '`${f()}`;', 'x ||= f();']
+COMPLETION_PRE = 'var t = true, x = 0; function f() { return "fv" } var o = {m() { return "mv" }}; function C() { this.c = 1 }\n'
+
+
+def completion_family(tier='quick'):
+    progs = []
+    n = len(COMPLETION_STMTS)
+    depth = 3
+    for d in range(1, depth + 1):
+        for combo in itertools.product(range(n), repeat=d):
+            if d == 3 and tier == 'quick' and (combo[0] * 7 + combo[1] * 3 + combo[2]) % 4:
+                continue
+            body = ' '.join(COMPLETION_STMTS[c].replace('@', str(k)) for k, c in enumerate(combo))
+            progs.append(COMPLETION_PRE + body)
+            if d <= 2:
+                progs.append(COMPLETION_PRE + 'print(eval(' + repr(body).replace("'", '"') + '));' if '"' not in body else COMPLETION_PRE + "print(eval('" + body.replace('\\', '\\\\').replace("'", "\\'") + "'));")
+                progs.append(COMPLETION_PRE + '(function () { print(eval(' + "'" + body.replace('\\', '\\\\').replace("'", "\\'") + "'" + ')); })();')
+    return list(dict.fromkeys(progs))
